@@ -101,6 +101,38 @@ def out_allocs(mod):
     return out
 
 
+def auto_constructors(mod):
+    """constructors found in the code: g stores a fresh allocation into a field of *param_k (g(&obj, ...) leaves obj owning heap memory); the matching
+    releases are the functions that free the pointer loaded from the same field of one of their parameters.  g -> (k, [(release, arg)])"""
+    if hasattr(mod, "_auto_ctor"):
+        return mod._auto_ctor
+    made = {}      # g -> (k, set of (T, field))
+    for g in mod.funcs.values():
+        for s in g.insts():
+            if s.op != "store" or not any(p[0][0] == "C" and p[0][1] in ALLOCS and len(p) == 1 for p in g.paths(s.ops[0])):
+                continue
+            for q in g.addr_paths(s):
+                if len(q) == 2 and q[0][0] == "A" and q[1][0] == "f":
+                    k = q[0][1]
+                    if g.name in made and made[g.name][0] != k:
+                        continue
+                    made.setdefault(g.name, (k, set()))[1].add((q[1][1], q[1][2]))
+    frees = {}     # (T, field) -> [(h, j)]
+    for h in mod.funcs.values():
+        for c in h.calls():
+            if (c.callee or "") in FREES and c.ops:
+                for p in h.paths(c.ops[0]):
+                    if len(p) == 3 and p[0][0] == "A" and p[1][0] == "f" and p[2] == ("*",):
+                        frees.setdefault((p[1][1], p[1][2]), []).append((h.name, p[0][1]))
+    out = {}
+    for gname, (k, flds) in made.items():
+        rel = sorted({x for fl in flds for x in frees.get(fl, [])})
+        if rel:
+            out[gname] = (k, rel)
+    mod._auto_ctor = out
+    return out
+
+
 _esc = {}
 
 
@@ -184,8 +216,8 @@ class ResAnalysis(object):
                         if len(ps) == 1 and list(ps)[0][0][0] == "L" and len(list(ps)[0]) == 1:
                             cell = list(ps)[0]
                             out.append((c, cell + (("*",),), "array returned by %s() through its parameter %d (%s)" % (cal, k + 1, fmt_path(cell, f)), None))
-            elif cal in CONSTRUCTORS:
-                k, rel = CONSTRUCTORS[cal]
+            elif cal in CONSTRUCTORS or cal in auto_constructors(self.mod):
+                k, rel = CONSTRUCTORS[cal] if cal in CONSTRUCTORS else auto_constructors(self.mod)[cal]
                 if k < len(c.ops):
                     ps = f.paths(c.ops[k])
                     if len(ps) == 1:
@@ -281,6 +313,10 @@ class ResAnalysis(object):
             for ins in b.insts[pos:]:
                 op = ins.op
                 if ins is site:
+                    if live:
+                        # the acquisition is executed again (next iteration of a loop) while the previous instance is still owned here: it is overwritten
+                        leaks.setdefault(ins.i, (ins, "acquired again while the previous instance is still held"))
+                        ended = True; break
                     live = True
                     holders_m = set()
                     continue
